@@ -671,13 +671,14 @@ def explore_scenario(m, scn, paused, bound, cmp_, fails, visited=None, max_paths
 
 def _worker(job):
     """thorough tier: one (scenario, initial back-pressure) in its own process"""
-    idx, paused, bound, max_paths, seed = job
+    idx, paused, bound, max_paths, hashed = job
     scn = scenarios("thorough")[idx]
     m = Machine()
     stats, fails, nstat = {}, [], {}
     cmp_ = Comparer(stats)
     try:
-        explore_scenario(m, scn, paused, bound, cmp_, fails, visited=set(), max_paths=max_paths, nstat=nstat)
+        explore_scenario(m, scn, paused, bound, cmp_, fails, visited=set() if hashed else None, max_paths=max_paths,
+                         nstat=nstat)
         cmp_.flush()
     finally:
         m.finish()
@@ -734,7 +735,10 @@ def correspondence(ctx):
             import multiprocessing as mp
 
             n3 = len(scenarios("thorough"))
-            jobs = [(i, p, 9, 9000, ctx.seed) for i in range(n3) for p in (False, True)]
+            # (a) state-hashed, deep: every distinct abstract state of every scenario is expanded once;
+            # (b) plain re-execution, bound 9, no hashing (hashing ignores the coroutines' local variables)
+            jobs = [(i, p, 16, 20000, True) for i in range(n3) for p in (False, True)]
+            jobs += [(i, p, 9, 6000, False) for i in range(n3) for p in (False, True)]
             with mp.Pool(min(16, os.cpu_count() or 4)) as pool:
                 for res in pool.imap_unordered(_worker, jobs):
                     evals += res["evals"]
@@ -759,9 +763,9 @@ def correspondence(ctx):
                     "{reader + tick}, each with the transport initially free / paused, branching over every enabled letter "
                     "at the first 6 nodes that offer a choice and completed first-enabled afterwards, plus uniformly random "
                     "maximal schedules of the long scenarios; thorough: the same scenario list extended by eleven 3-task "
-                    "scenarios, bound 9, state hashing (a node whose (connection, journal, suspension points, queue, per-task "
-                    "progress) was seen is not expanded again), <= 9000 schedules per (scenario, back-pressure), one process "
-                    "each.  evaluations = compared steps (one per letter: effects of the step, whole connection + journal, "
+                    "scenarios, explored twice per (scenario, back-pressure), one process each: (a) bound 16 with state hashing "
+                    "(a node whose (connection, journal, suspension points, queue, per-task progress) was seen is not expanded "
+                    "again), (b) bound 9 without hashing, <= 6000 schedules.  evaluations = compared steps (one per letter: effects of the step, whole connection + journal, "
                     "suspension point of every task, drain FIFO, rewind / restore counts); distinct = distinct (scenario, "
                     "per-step effect kinds, per-step suspension points) sequences.",
             "samples": samples[:6],
